@@ -225,6 +225,11 @@ func checkC14(c *core.Ctx) {
 		pred := sqlfe.Canon(ix.Where)
 		c.Check(pred == "('' <> reference)" || pred == "", "CAT/reference-index", "predicate", ix.Origin, "where reference <> '' (or none)", "index predicate is "+pred+": it must not exclude non-empty references")
 	}
+	// no narrower (bucket-wide) unique constraint on transactions; the constraint is never absent
+	// between two migrations; the conflict error survives every wrapper on its way to the handler
+	ruleUniqueScope(c, "CAT/unique-scope", "transactions")
+	ruleUniqueContinuity(c, "CAT/unique-continuity", "transactions")
+	ruleErrorChainKept(c)
 	ruleConstraintNames(c)
 	// reference column tag
 	if td := namedType(c, pkgCore, "TransactionData"); td != nil {
@@ -267,6 +272,12 @@ func checkC16(c *core.Ctx) {
 	c.NotDecided("that ids increase in commit order under concurrency (needs the lock analysis of C09/C34 plus execution)")
 	c.Trust("Postgres sequence semantics")
 	ruleIDsAndSequences(c)
+	// imported ids: strictly increasing within and across imports (shared with C12); ids drawn
+	// under the per-ledger lock when the hash chain needs commit order (shared with C09); the
+	// unique (ledger, id) constraints never absent between two migrations
+	ruleImportIDOrder(c)
+	ruleLogInsertLock(c)
+	ruleUniqueContinuity(c, "CAT/unique-continuity", "transactions", "logs")
 }
 
 // ruleIDsAndSequences: unique (ledger, id), per-ledger sequences created plainly for every ledger
@@ -476,6 +487,8 @@ func checkC13(c *core.Ctx) {
 	ruleForgeLogIK(c)
 	ruleRequestInputNotMutated(c)
 	ruleIKLookupColumns(c)
+	ruleUniqueContinuity(c, "CAT/unique-continuity", "logs")
+	ruleErrorChainKept(c)
 	// HTTP
 	n := 0
 	for _, s := range writeCallSites(c, logWriters...) {
